@@ -187,7 +187,12 @@ static void set_body(Rng &r, const GenFeatures &f, MsgSpec &m, bool allow_close)
     int k = (int) r.below(10);
     size_t maxb = (size_t) f.max_body;
     if (r.chance(1, 20)) maxb = 20000;   // sometimes larger than one output/buffer unit
-    if (k < 3) { m.framing = FR_NONE; return; }
+    if (k < 3) {
+        m.framing = FR_NONE;
+        // a coding announced on a message without body: the decoder set up for it has nothing to do and must still be torn down
+        if (f.content_coding && r.chance(1, 6)) { HeaderSpec ce; ce.name = "Content-Encoding"; static const char *V[] = {"gzip", "deflate", "lzma", "gzip, deflate"}; ce.value = V[r.below(4)]; m.headers.push_back(ce); }
+        return;
+    }
     m.body = rand_body(r, f, maxb);
     m.payload = m.body;
     if (f.content_coding && r.chance(1, 3)) {
